@@ -245,8 +245,38 @@ Cases ==
              \cup { << "gparse", k, 0, T4, 1, 0, v >> : k \in { 16, 64, 256 }, v \in 1..20 }
         ELSE { })
 
+\* X: the order-13 test group (cfg C19_tiny13: Cases <- TinyCases).  Generators are inputs, so any subgroup points
+\* serve: G_vec = (2G, 3G), H_vec = (5G) resp. G_vec = (2G), H_vec = (3G, 5G).  Enumerated completely:
+\*  "tw"  every witness (n, l) in Z_13^3 for both shapes, two challenge bases: commit, prove, verify;
+\*  "tp"  every proof string made of two subgroup points (or infinity) and two scalar encodings 0..14 / 0..12
+\*        for one fixed statement -- the only place where accepted proofs exist that no prover produced.
+TinyGens == << PMulG(Two), PMulG(Three), PMulG(FromNat(5)) >>
+TinyStmt(g, n, l, rho) ==
+  LET h == 3 - g   c == [j \in 1..h |-> FromNat(5 + j)]
+      C == BpCommit(SubSeq(TinyGens, 1, g), SubSeq(TinyGens, g + 1, 3), n, l, c, SMul(rho, rho))
+  IN  [ gens |-> TinyGens, gb |-> BpGensSer(TinyGens), g |-> g, h |-> h, n |-> n, l |-> l, c |-> BpTup(c),
+        rho |-> rho, mu |-> SMul(rho, rho), C |-> C, pre |-> << 7, 7, 7 >> ]
+TinyW(g, a, b, c, rho) == IF g = 2 THEN TinyStmt(2, << FromNat(a), FromNat(b) >>, << FromNat(c) >>, FromNat(rho))
+                          ELSE TinyStmt(1, << FromNat(a) >>, << FromNat(b), FromNat(c) >>, FromNat(rho))
+TinyFixed == TinyStmt(2, << Three, Seven >>, << FromNat(4) >>, Two)
+TinyPt(k) == IF k = 0 THEN Inf ELSE PMulG(FromNat(k))
+NN == ToNat(N)
+TinyCases ==
+       { << "tw", k, g, a, b, c, rho >> : k \in IF Thorough THEN Kinds ELSE { "prove", "verify" }, g \in IF Thorough THEN { 1, 2 } ELSE { 2 },
+                                          a \in 0..(NN-1), b \in 0..(NN-1), c \in 0..(NN-1), rho \in IF Thorough THEN { 2, 6 } ELSE { 2 } }
+  \cup { << "tw", k, 1, a, b, c, 6 >> : k \in Kinds, a \in { 0, 1, NN-1 }, b \in 0..(NN-1), c \in { 0, 5 } }
+  \cup { << "tp", x, r, n, l >> : x \in 0..(NN-1), r \in 0..(NN-1), n \in 0..(NN+1), l \in IF Thorough THEN 0..(NN-1) ELSE { 0, 4, NN-1 } }
+ExpandTiny(d) ==
+  IF d[1] = "tw"
+  THEN LET s == TinyW(d[3], d[4], d[5], d[6], d[7]) IN
+       CASE d[2] = "commit" -> RCommit(s, BigScr)
+         [] d[2] = "prove"  -> RProve(s, BigScr)
+         [] d[2] = "verify" -> RVerify(VIn(s, StmtProof(s), BigScr))
+  ELSE RVerify(VIn(TinyFixed, BpSerTwo(TinyPt(d[2]), TinyPt(d[3])) \o ToBytesBE(FromNat(d[4]), 32) \o ToBytesBE(FromNat(d[5]), 32), BigScr))
+
 Expand(d) ==
   LET k == d[1] IN
+  IF k \in { "tw", "tp" } THEN ExpandTiny(d) ELSE
   IF k = "gparse" THEN [ e |-> "BpppGensParse", in |-> [ data |-> GParse(d[2], d[7]) ] ]
   ELSE IF k = "flip" THEN RVerify(VIn(FlipStmt, FlipBit(FlipProof, d[7]), BigScr))
   ELSE IF k = "scr" THEN RVerify(VIn(FlipStmt, FlipProof, d[7]))
@@ -291,6 +321,11 @@ InvVerify == (phase = "done" /\ rec.e = "BpppVerify") =>
                /\ (cur[1] \in { "mut", "flip" } \/ cur[5] = 4) => rec.out.ret = 0                                   \* altered ones and rho = 0 do not
                /\ (cur[1] = "scr") => (rec.out.ret = 1 <=> cur[7] >= FlipNeed)
 InvGens == (phase = "done" /\ rec.e = "BpppGensParse") => GensRoundTrip(rec.in, rec.out)
+\* order-13 group: every honest proof verifies (completeness for ALL witnesses), and a proof string is accepted
+\* exactly when the paper's reduction accepts it
+InvTiny == (phase = "done" /\ rec.e = "BpppVerify") =>
+             /\ cur[1] = "tw" => rec.out.ret = 1
+             /\ FoldAgrees(rec.in, rec.out)
 Emit == phase = "done" => EmitRecord(rec)
 
 -----------------------------------------------------------------------------
